@@ -148,6 +148,7 @@ let parse (line : string) : parsed =
   | "del@" -> Op (ODelInt (id_of ("m:" ^ a 1), z_of_decimal (a 2)))
   | "has@" -> Op (OHasInt (id_of ("m:" ^ a 1), z_of_decimal (a 2)))
   | "snap" -> Op (OSnap (bytes_of_string (a 1)))
+  | "cpdir" -> Op (OCpDir (bytes_of_string (a 1), bytes_of_string (a 2)))
   | other -> Skip other       (* limit, unlimit, kill9, trace, mutate, cpfile, cpdir: runtime-only *)
 
 (* ---- printing ---- *)
